@@ -328,13 +328,8 @@ def rules(ctx: Ctx) -> None:
                        f"`{u(prog.enclosing_stmt(store))[:60]}`: the analyzer lives across statements; only the T-SQL splitter may write its cache"
                        + ("" if ok else " (state written while analysing a statement is carried into the next one)"))
     # session metadata inert without a provider: reuse R13.2's truthiness gating
-    from . import c13
-
-    sub = Ctx(ctx.pid, ctx.tier, prog, ctx.repo)
-    c13.rules(sub)
-    for o in sub.obligations:
-        if o.rule == "R13.2" and o.key.startswith("lookup-gated-by-truthiness"):
-            ctx.obligations.append(replace(o, rule="R05.3", key="session-metadata-inert-without-provider:" + o.key.split(":", 1)[1]))
+    common.import_rules(ctx, "C13", {"R13.2": "R05.3"}, key_filter=lambda o: o.key.startswith("lookup-gated-by-truthiness"),
+                        key_map=lambda o: "session-metadata-inert-without-provider:" + o.key.split(":", 1)[1])
 
 
 def _bound_from_analyze(prog: Prog, fn: Fn, e: ast.AST) -> bool:
